@@ -1,7 +1,6 @@
 (* CenterImage.v — shapes produced by the trimming step of center_image
    (center.py:137-162, model ci_trim): odd width for odd_size, square for
-   square with odd_size; for square without odd_size the rows < cols branch
-   with an odd difference is wrong (witnesses). *)
+   square, for every input shape. *)
 From Coq Require Import List Arith Lia Bool ZArith ZifyBool ZifyNat.
 From PA Require Import base.Arr base.Px model.Center.
 Import ListNotations.
@@ -74,7 +73,7 @@ Section Trim.
         let rows1 := if odd_size && Nat.even rows then slen rows 0 (-1) else rows in
         let rowsv := if odd_size && Nat.even rows then rows - 1 else rows in
         let xs := Z.of_nat ((cols1 - rowsv) / 2) in
-        (rows1, slen cols1 xs (- xs))
+        (rows1, slen cols1 xs (xs + Z.of_nat rowsv))
     else (rows, cols1).
 
   Lemma ncols_wf n m (IM : img) : wf n m IM -> 0 < n -> ncols IM = m.
@@ -107,46 +106,49 @@ Section Trim.
       + apply wf_pyslice_cols. exact W1.
   Qed.
 
+  Lemma slen_droplast n : slen n 0 (-1) = n - 1.
+  Proof. unfold slen, slice_bounds, norm_idx. cbn [snd]. cbn [Z.ltb Z.compare]. lia. Qed.
+
+  Lemma slen_sym n t : slen n (Z.of_nat t) (- Z.of_nat t) = if t =? 0 then 0 else (n - t) - Nat.min n t.
+  Proof.
+    unfold slen, slice_bounds, norm_idx. cbn [snd].
+    destruct (Nat.eqb_spec t 0) as [->|Ht].
+    - cbn. lia.
+    - destruct (Z.ltb_spec (Z.of_nat t) 0); destruct (Z.ltb_spec (- Z.of_nat t) 0); lia.
+  Qed.
+
+  Lemma slen_block n x r : slen n (Z.of_nat x) (Z.of_nat x + Z.of_nat r) = Nat.min n (x + r) - Nat.min n x.
+  Proof.
+    unfold slen, slice_bounds, norm_idx. cbn [snd].
+    destruct (Z.ltb_spec (Z.of_nat x) 0); destruct (Z.ltb_spec (Z.of_nat x + Z.of_nat r) 0); lia.
+  Qed.
+
   Ltac shape_tac :=
-    unfold ci_shape, slen, slice_bounds, norm_idx; cbn [fst snd andb negb];
-    rewrite ?even_mod2;
+    unfold ci_shape; cbn [andb negb]; rewrite ?even_mod2, ?slen_droplast;
     repeat match goal with
-           | |- context [(?a <? ?b)%Z] => destruct (Z.ltb_spec a b)
-           | |- context [?a <? ?b] => destruct (Nat.ltb_spec a b)
-           | |- context [?a =? ?b] => destruct (Nat.eqb_spec a b)
-           end; cbn [fst snd andb negb]; try lia.
+           | |- context [if ?a <? ?b then _ else _] => destruct (Nat.ltb_spec a b)
+           | |- context [if ?a =? ?b then _ else _] => destruct (Nat.eqb_spec a b)
+           | |- context [negb (?a =? ?b)] => destruct (Nat.eqb_spec a b)
+           end; cbn [fst snd andb negb]; rewrite ?slen_droplast, ?slen_sym, ?slen_block;
+    repeat match goal with
+           | |- context [if ?a =? ?b then _ else _] => destruct (Nat.eqb_spec a b)
+           end; cbn [fst snd]; try lia.
 
   (* odd_size: the width is odd, whatever square, for every shape *)
   Lemma ci_shape_odd square n m : 0 < n -> 0 < m ->
     snd (ci_shape true square n m) mod 2 = 1 /\ 0 < fst (ci_shape true square n m).
   Proof. intros Hn Hm. destruct square; shape_tac. Qed.
 
-  (* square together with odd_size: square (and odd) for every shape *)
-  Lemma ci_shape_square_odd n m : 0 < n -> 0 < m ->
-    fst (ci_shape true true n m) = snd (ci_shape true true n m) /\ 0 < fst (ci_shape true true n m).
-  Proof. intros Hn Hm. shape_tac. Qed.
-
-  (* square without odd_size: correct when rows >= cols or the difference is even *)
-  Lemma ci_shape_square_partial n m : 0 < n -> 0 < m -> (m <= n \/ (m - n) mod 2 = 0) ->
-    fst (ci_shape false true n m) = snd (ci_shape false true n m) /\ 0 < fst (ci_shape false true n m).
-  Proof. intros Hn Hm H. shape_tac. Qed.
-
-  (* ... and wrong for rows < cols with an odd difference: too few columns are
-     removed (difference 3, 5, ...) or all of them (difference 1: IM[:, 0:-0]) *)
-  Lemma ci_shape_square_wrong n m : 0 < n -> n < m -> (m - n) mod 2 = 1 ->
-    ci_shape false true n m = (n, if m - n =? 1 then 0 else n + 1).
-  Proof. intros Hn Hm H. shape_tac; f_equal; lia. Qed.
+  (* square: a square image for every shape and both values of odd_size *)
+  Lemma ci_shape_square odd_size n m : 0 < n -> 0 < m ->
+    fst (ci_shape odd_size true n m) = snd (ci_shape odd_size true n m) /\
+    0 < fst (ci_shape odd_size true n m).
+  Proof. intros Hn Hm. destruct odd_size; shape_tac. Qed.
 End Trim.
 
-(* concrete witnesses on the executable model *)
-Lemma ci_trim_refuted_4x5 :
-  exists IM : list (list nat), wf 4 5 IM /\ ci_trim false true IM = [[]; []; []; []].
-Proof.
-  exists (repeat [1; 2; 3; 4; 5] 4). split; [|reflexivity]. split; [reflexivity|repeat constructor].
-Qed.
-
-Lemma ci_trim_refuted_3x6 :
-  exists IM : list (list nat), wf 3 6 IM /\ wf 3 4 (ci_trim false true IM).
-Proof.
-  exists (repeat [1; 2; 3; 4; 5; 6] 3). split; split; try reflexivity; repeat constructor.
-Qed.
+(* the two shapes on which the code before commit 8e8ce4b returned (4, 0) and
+   (3, 4) *)
+Lemma ci_trim_fixed_examples :
+  ci_trim false true (repeat [1; 2; 3; 4; 5] 4) = repeat [1; 2; 3; 4] 4 /\
+  ci_trim false true (repeat [1; 2; 3; 4; 5; 6] 3) = repeat [2; 3; 4] 3.
+Proof. split; reflexivity. Qed.
